@@ -33,7 +33,8 @@ def extra_builds(tier):
 
 def bounds(tier):
     return {"scrypt_log2N": "1..=10" if tier == "thorough" else "1..=6 (+ spot 10)", "scrypt_r": "1..=8 (thorough also 9..=16 at small N)", "scrypt_p": "1..=4 (thorough also 5..=8 at small N)",
-            "pbkdf2_c_max": 4096 if tier == "thorough" else 1000, "hkdf_digests": 13 if tier == "thorough" else 5, "hkdf_L_max": "255*HashLen (and +1, 256*HashLen refused)"}
+            "pbkdf2_c_max": 4096 if tier == "thorough" else 1000, "hkdf_digests": 13 if tier == "thorough" else 5, "hkdf_L_max": "255*HashLen (and +1, 256*HashLen refused)",
+            "used_objects": "HKDF with fed / finalised digests x salts up to 2B+7; PBKDF2 after input+reset, twice on one Hmac", "pbkdf2_blocks_max": 65537}
 
 
 def validate_models(tier):
